@@ -25,12 +25,25 @@ def main():
     ck = common.Check(a.pid, a.tier, a.seed, level=getattr(mod, "LEVEL", "proof"))
     try:
         rc = mod.run(ck)
-    except Exception:
-        # machinery failure: say so loudly, never pretend the property held
-        traceback.print_exc()
-        ck.cleanup()
-        print("ERROR: check %s could not complete (harness failure, not a property verdict)" % a.pid)
-        sys.exit(2)
+    except Exception as e:
+        # The tie between model and code cannot be established on this tree (the harness reaches into the code and
+        # something it needs is gone or behaves differently): the property is no longer shown to hold. No failing input
+        # was found, the replay file names what broke.
+        tb = traceback.format_exc()
+        sys.stderr.write(tb)
+        ck.violations = [v for v in ck.violations if v.found_input]
+        ck.report("tie:harness-cannot-run:%s" % type(e).__name__,
+                  "the correspondence harness harness/%s.py cannot run against this tree (%s: %s): the tie between the Coq "
+                  "model and the code no longer checks" % (a.pid.lower(), type(e).__name__, str(e)[:300]),
+                  {"broken": "correspondence harness/%s.py (model/implementation tie)" % a.pid.lower(), "traceback": tb[-3000:]},
+                  found_input=False)
+        try:
+            rc = ck.finish("harness failure: correspondence could not be run")
+        except Exception:
+            traceback.print_exc()
+            ck.cleanup()
+            print("VIOLATION property=%s replay=%s no-failing-input-found" % (a.pid, ck.violations[-1].replay))
+            rc = 1
     sys.exit(rc)
 
 
